@@ -93,6 +93,45 @@ CHECKS["C10"] = (
     "Tsukamoto z from the documented inverse; degrees outside (0,height) for Tsukamoto are undefined and skipped.",
     "§5 C10")
 
+CHECKS["C12"] = (
+    "Hypothesis-generated call histories (operation lists) interpreted against a per-row reference model of the lock-previous/default/lock-range cascade, compared after every step",
+    "Histories of scalar/batch defuzzifications (values NaN, inside, outside the range, +-inf), failing defuzzifiers, "
+    "clear, restart and enable toggles over one OutputVariable in each of the 12 settings (lock-previous x default in "
+    "{NaN, inside, outside} x lock-range), driven through a scripted harness Defuzzifier (0-D, numpy.float64, 1-D "
+    "results) and through a real one-input Takagi-Sugeno engine with float or array inputs: value (all rows) and "
+    "previous_value must equal the model after every step; disabled variables and failing defuzzifiers change nothing; "
+    "any split of a sequence into calls/batches yields the same values.",
+    "The model is the statement's cascade row by row; comparisons are exact (NaN-equal).", "§5 C12")
+CHECKS["C13"] = (
+    "Hypothesis-generated operation histories on a generated engine vs a freshly built twin after every processing step + restart-state and copy-independence (identity walk) invariants",
+    "Histories of set-inputs (floats/batches), process, process twice, restart, copy-and-switch, parameter/rule/operator "
+    "edits, flag toggles and processing of the kept original over generated engines (incl. Linear/Function terms and "
+    "output variables in antecedents): after every process the outputs and fuzzy outputs equal those of the same spec "
+    "rebuilt from scratch and processed once; restart() leaves NaN inputs/outputs/previous values, empty fuzzy outputs, "
+    "loaded rules and fresh-engine behaviour (also with lock-previous on); copy() shares no mutable object with the "
+    "original, its Linear/Function/proposition references point into the copy, and neither engine's edits or "
+    "processing change the other's outputs.",
+    "Twin comparison exact; Function formulas reading output values are outside the history-free clause.", "§5 C13")
+CHECKS["C14"] = (
+    "Hypothesis-generated engines: FLL round-trip (text idempotence, independent structure walker, bit-identical outputs) + fixed point over rewritten accepted texts",
+    "Generated engines over every registered term, norm, defuzzifier (resolution/type) and activation class (with "
+    "parameters), descriptions with colons/quotes, disabled variables/blocks, non-unit heights and weights (incl. values "
+    "next to 1), infinite ranges, NaN defaults, `none` operators, decimals 1..9, grid and free numeric regimes: "
+    "export(import(export(e))) == export(e); an independent structure walker finds original and re-imported engine "
+    "equal; in the grid regime outputs are bit-identical on generated rows; for semantics-preserving rewrites of "
+    "exported texts and all shipped .fll files E1 = export(import(T)) is a fixed point.",
+    "Format limits (Rule.enabled, Function.variables, int-typed counts) are generator preconditions listed in the "
+    "evidence assumptions.", "§5 C14")
+
+CHECKS["C20"] = (
+    "Hypothesis-generated programs of nested settings contexts, direct assignments and exceptions interpreted against a model of the settings stack + exhaustive depth-2 enumeration",
+    "Recursively generated programs (with{subset->values} body | assign | raise | try | observe, depth <= 4) over the 7 "
+    "settings with float types, decimals, tolerances, aliases, fresh loggers and factory managers: vars(fl.settings) "
+    "equals the model at every observation, after every context exit (normal or by exception) and at the end; helper "
+    "outputs (Op.str, Op.is_close, scalar dtype, import statement) reflect the model's current values. All depth-2 "
+    "single-setting programs (7x7 pairs x {normal, exception inside, exception between exits}) are enumerated.",
+    "Settings values are never None (not expressible through a context).", "§5 C20")
+
 NOT_APPLICABLE = {}
 
 
